@@ -50,7 +50,7 @@ DELAUNAY = {
     "D9": [[1.5, -1.0], [1.0, 1.25], [0.25, 0.125], [-1.0, -1.5], [-1.25, 1.0], [-0.25, -0.375], [0.5, -0.25],
            [1.25, 0.25], [-0.75, 0.25]],
     "D12": [[1.5, -1.0], [1.0, 1.25], [0.25, 0.125], [-1.0, -1.5], [-1.25, 1.0], [-0.25, -0.375], [0.5, -0.25],
-            [1.25, 0.25], [-0.75, 0.25], [0.75, 0.75], [-0.5, -0.875], [0.125, 1.0]],
+            [1.25, 0.25], [-0.75, 0.25], [0.5, 0.875], [-0.5, -0.875], [0.125, 1.0]],
 }
 
 BOUNDS = {
@@ -89,7 +89,7 @@ ASSUMPTIONS = [
     "lemma: x != 0 iff for some i: x_0..x_{i-1} = 0 and x_i != 0; the quadratic form is homogeneous, so x_i = 1 w.l.o.g. (direct definiteness "
     "queries are split into these n cases)",
 ]
-EXPLORER_OPTS = {"timeout_ms": 60000, "max_paths": 5000}
+EXPLORER_OPTS = {"timeout_ms": 120000, "max_paths": 5000}
 BUDGET_S = {"quick": 900, "thorough": 2300}
 IMG = 3
 
@@ -748,19 +748,25 @@ def cases(tier):
     dels = ["D5", "D6", "D7", "D9"] + ([] if q else ["D12"])
     pd_cap = 9 if q else 12
     meshes = [["rect", h, w] for h, w in rects] + [["del", d] for d in dels]
-    for m in meshes:
+    slow = {"timeout_ms": 900000}       # the 12-unknown definiteness queries need ~5 s each on an idle core; the machine is shared
+
+    def pd_ok(m):
         n = mesh_reference(m)[0]
-        out.append(("case_kernels", {"mesh": m, "pd": n <= pd_cap}))
+        return n <= (pd_cap if m[0] == "rect" else 9)
+
+    for m in meshes:
+        out.append(("case_kernels", {"mesh": m, "pd": pd_ok(m)}, slow if pd_ok(m) and not q else {}))
     for n in ([2, 3, 4] if q else [2, 3, 4, 5]):
         out.append(("case_kernels", {"mesh": ["graph", n], "pd": True}, {"split": 0 if n < 5 else 4}))
     # scheme classes on real mappers
-    cmeshes = [["rect", 3, 3], ["rect", 3, 4], ["del", "D5"], ["del", "D7"]] + ([] if q else [["rect", 4, 4], ["rect", 4, 3], ["del", "D6"], ["del", "D9"]])
+    cmeshes = [["rect", 3, 3], ["rect", 3, 4], ["del", "D5"], ["del", "D7"]] + ([] if q else [["rect", 4, 4], ["rect", 4, 3], ["rect", 5, 5],
+                                                                                            ["del", "D6"], ["del", "D9"], ["del", "D12"]])
     for m in cmeshes:
         n = mesh_reference(m)[0]
         for scheme in ("Constant", "ConstantZeroth", "Zeroth"):
             # ConstantZeroth has two coefficients: the direct query terminates only on the smallest meshes
-            pd = n <= (5 if scheme == "ConstantZeroth" else pd_cap) and scheme != "Zeroth"
-            out.append(("case_scheme", {"mesh": m, "scheme": scheme, "sscale": 1, "pd": pd}))
+            pd = (n <= 5 if scheme == "ConstantZeroth" else pd_ok(m)) and scheme != "Zeroth"
+            out.append(("case_scheme", {"mesh": m, "scheme": scheme, "sscale": 1, "pd": pd}, slow if pd and not q else {}))
         for scheme in ("AdaptiveBrightness", "BrightnessZeroth"):
             for ss in (1, 2, "sym"):
                 for img in ([3] if q else [3, 4]):
